@@ -235,8 +235,24 @@ class _Res:
         self.url = url
 
 
+_PRESERVING = []
+
+
 def observe_recording(text, url=URL):
     ZConfig = _mods()
+    # another parser class in the same process -- the hook "factored out solely to allow
+    # subclasses to modify the behavior of the parser", here: names keep their case -- reads the
+    # text first; what it does is its own business and must not reach the stock parser
+    if not _PRESERVING:
+        class Preserving(ZConfig.cfgparser.ZConfigParser):
+            def _normalize_case(self, string):
+                return string
+        _PRESERVING.append(Preserving)
+    try:
+        c0 = _Ctx()
+        _PRESERVING[0](_Res(text, url), c0).parse(_Sec(c0.log))
+    except Exception:  # noqa
+        pass
     ctx = _Ctx()
     try:
         p = ZConfig.cfgparser.ZConfigParser(_Res(text, url), ctx)
